@@ -234,6 +234,27 @@ func rtGet(h host, m any, e extDef) (any, error) {
 	return proto.GetExtension(m.(proto.Message), e.desc.(protoreflect.ExtensionType)), nil
 }
 
+func rtSet(h host, m any, e extDef, v any) error {
+	switch h.runtime {
+	case "gogo":
+		return gogo.SetExtension(m.(gogo.Message), e.desc.(*gogo.ExtensionDesc), v)
+	case "legacy":
+		return golangproto.SetExtension(m.(golangproto.Message), e.desc.(*golangproto.ExtensionDesc), v)
+	}
+	proto.SetExtension(m.(proto.Message), e.desc.(protoreflect.ExtensionType), v)
+	return nil
+}
+
+func rtClone(h host, m any) any {
+	switch h.runtime {
+	case "gogo":
+		return gogo.Clone(m.(gogo.Message))
+	case "legacy":
+		return golangproto.Clone(m.(golangproto.Message))
+	}
+	return proto.Clone(m.(proto.Message))
+}
+
 func rtMarshal(h host, m any) ([]byte, error) {
 	switch h.runtime {
 	case "gogo":
@@ -334,6 +355,57 @@ func (s *sim) opSet(t *rapid.T) {
 		return
 	}
 	s.model[e.name] = want
+}
+
+// opSetOdd stores a value the runtimes treat specially - a nil byte slice, a typed nil message pointer - through
+// csproto on the message and through the owning runtime's own SetExtension on a clone: csproto must succeed or
+// fail where the runtime does and leave the same extensions behind. The model then follows the runtime.
+func (s *sim) opSetOdd(t *rapid.T) {
+	e := s.ext()
+	v := e.newVal(t)
+	rv := reflect.ValueOf(v)
+	switch {
+	case rv.Kind() == reflect.Slice || rv.Kind() == reflect.Pointer:
+		v = reflect.Zero(rv.Type()).Interface()
+	default:
+		return // scalars of the v2 API have no nil form
+	}
+	twin := rtClone(s.h, s.m)
+	outcome := func(f func() error) (res string) {
+		defer func() {
+			if p := recover(); p != nil {
+				if rep.IsChoicePanic(p) {
+					panic(p)
+				}
+				res = "fails"
+			}
+		}()
+		if err := f(); err != nil {
+			return "fails"
+		}
+		return "ok"
+	}
+	cs := outcome(func() error { return csproto.SetExtension(s.m, e.desc, v) })
+	rt := outcome(func() error { return rtSet(s.h, twin, e, v) })
+	s.w.Step("SetExtension(%s, nil %T): csproto %s, owning runtime on a clone %s", e.name, v, cs, rt)
+	s.w.Fault("nil_extension_value")
+	s.judged++
+	if cs != rt {
+		s.viol("set-nil-outcome-differs-from-runtime", "SetExtension(%s, nil %T): csproto %s, the owning runtime %s", e.name, v, cs, rt)
+		return
+	}
+	if got, want := extDigest(s.h, s.m), extDigest(s.h, twin); got != want {
+		s.viol("set-nil-effect-differs-from-runtime", "after SetExtension(%s, nil %T): %s, the owning runtime leaves %s", e.name, v, got, want)
+		return
+	}
+	for _, x := range s.h.exts {
+		if rtHas(s.h, s.m, x) {
+			xv, _ := rtGet(s.h, s.m, x)
+			s.model[x.name] = dig(xv)
+		} else {
+			delete(s.model, x.name)
+		}
+	}
 }
 
 func (s *sim) opHasGet(t *rapid.T) {
@@ -699,7 +771,7 @@ func runC12(t *rapid.T, w *rep.Worker) {
 	csproto.VerifResetTypeCaches() // every run starts with an empty process-wide type cache
 	t.Repeat(map[string]func(*rapid.T){
 		"set": s.opSet, "set2": s.opSet, "hasget": s.opHasGet, "hasget2": s.opHasGet, "clear": s.opClear, "clearall": s.opClearAll,
-		"range": s.opRange, "number": s.opNumber, "typednil": s.opTypedNil, "otherdynamic": s.opOtherDynamic, "roundtrip": s.opRoundTrip, "csmarshal": s.opCsMarshal, "mismatch": s.opMismatch,
+		"range": s.opRange, "number": s.opNumber, "typednil": s.opTypedNil, "otherdynamic": s.opOtherDynamic, "roundtrip": s.opRoundTrip, "csmarshal": s.opCsMarshal, "setodd": s.opSetOdd, "mismatch": s.opMismatch,
 		"": func(t *rapid.T) {
 			w.State(fmt.Sprintf("%s|set=%d", h.runtime, len(s.model)))
 			if sig := w.Pending(); sig != "" {
